@@ -1,0 +1,12 @@
+//go:build verif
+
+// Contracts for the deductive verifier in /verif (comment-only; compiled only with -tags verif).
+package types
+
+// Genesis validation cross-checks supplies against balances with Go maps; it reads no state (assumed: no effect;
+// InitGenesis relies on nothing it establishes)
+//@ func ValidateGenesis
+//@   property C12
+//@   trusted
+//@   returns err
+//@ end
